@@ -107,7 +107,7 @@ def run(ctx, R):
     h = F.hir(lex["next_token"])
     n_eof = 0
     for n in walk(h["body"]):
-        if n["k"] == "Match":
+        if n["k"] == "Match" and n.get("src") == "Normal":
             for a in n["arms"]:
                 if any(_pat_shape(q)[:1] == ("Ok",) for q in pat_leaves(a["pat"])) and a["body"]["k"] != "Closure":
                     for x in walk_no_closures(a["body"]):
